@@ -326,6 +326,9 @@ CHECKS = {
         'max(n1, n2, n1+n2-overlap) moments (C05_concat2_length), on every shared wire - qubit, measurement or control key - the first circuit stays strictly before the second (C05_concat2_order), '
         'no moment gets two operations on a qubit (C05_concat2_wf, C05_concatRagged_wf) and the overlap is maximal (C05_concat2_maximal); the concat stream compares the exact moment layout of '
         'Circuit / FrozenCircuit.concat_ragged (static, bound, mixed arguments, every spelling of align) with the model; Circuit.zip likewise (C05_zip_wf, C05_zip_length, C05_zip_conserves). '
+        'The moment look-ups (Props/C05Lookup): next_moment_operating_on returns the first moment from the start index on that touches the qubits and nothing exactly when there is none '
+        '(C05_next_moment_spec, C05_next_moment_none), prev_moment_operating_on the last one before the end index (C05_prev_moment_spec), and with max_distance the same answer when it lies '
+        'inside the window counted from the start / end index itself, also past the end of the circuit (C05_next_moment_within, C05_prev_moment_within). '
         'The model mirrors Circuit.insert & co. and is tied to cirq.Circuit by history-driven differential correspondence; the '
         'ordering clauses of the property (existing / inserted / after-prefix / before-suffix with the stated EARLIEST exception) '
         'and the cached summaries are evaluated on the implementation\'s own circuits after every call by a Lean specification '
